@@ -78,10 +78,12 @@ pub struct ChainCfg {
     pub export: bool,
     /// chains of 8-20 evaluations instead of 2-7
     pub long: bool,
+    /// with `inject`: keep the plan's failures and abort (default: injection runs are otherwise failure-free)
+    pub inject_with_faults: bool,
 }
 impl ChainCfg {
     pub fn new(conv: Conv, family: Family, maxn: usize) -> Self {
-        ChainCfg { conv, family, maxn, twins: true, misuse: Misuse::Off, inject: false, next_job_twin: false, verbose: false, export: false, long: false }
+        ChainCfg { conv, family, maxn, twins: true, misuse: Misuse::Off, inject: false, next_job_twin: false, verbose: false, export: false, long: false, inject_with_faults: false }
     }
     pub fn replay_args(&self, seed: u64) -> Vec<String> {
         let mut v = vec![
@@ -105,6 +107,9 @@ impl ChainCfg {
         if self.long {
             flags.push("long");
         }
+        if self.inject_with_faults {
+            flags.push("injectf");
+        }
         match self.misuse {
             Misuse::Off => {}
             Misuse::Every => flags.push("misuse-every"),
@@ -120,6 +125,10 @@ impl ChainCfg {
                 "inject" => self.inject = true,
                 "nextjob" => self.next_job_twin = true,
                 "long" => self.long = true,
+                "injectf" => {
+                    self.inject = true;
+                    self.inject_with_faults = true
+                }
                 "misuse" => self.misuse = Misuse::Random(0.3),
                 "misuse-every" => self.misuse = Misuse::Every,
                 "-" | "" => {}
@@ -544,6 +553,8 @@ impl Project {
                             // a temp file that may have been left behind is not trusted: start without the file
                             for o in self.g.nodes[i].outs.clone() {
                                 self.world.borrow_mut().disk.remove(&o);
+                                self.world.borrow_mut().leftover.remove(&o);
+                                self.world.borrow_mut().temp.remove(&o);
                             }
                         }
                         desc.push(format!("kindflip {} {:?}->{:?}", self.g.nodes[i].id, old, k));
@@ -767,6 +778,9 @@ pub fn judge_offline(g: &Graph, h_in: &History, disk_after: &BTreeMap<String, St
                         (Some(f), Some(b)) => f < b,
                         _ => false,
                     };
+                    if rep.failed_q.contains(&e.up) {
+                        viols.push(mk("C17", "upstream-failed-report-inconsistent-with-failed-report", format!("{}:{}", kc(j), rep.disposition(j)), format!("{} is reported failed, its direct consumer {} was never started, yet {} is not in the upstream-failed report (it ends as {})", e.up, j, j, rep.disposition(j))));
+                    }
                     viols.push(mk(
                         "C07",
                         "blocked-job-not-upstream-failed",
@@ -1068,7 +1082,8 @@ fn jmap(h: &History) -> String {
 }
 
 /// one primary evaluation as a JSON object: everything the PyO3 boundary replay needs
-pub fn export_eval(g: &Graph, step: usize, h_in: &History, disk_before: &BTreeMap<String, String>, plan: &Plan, rep: &Report, exp: &Expect, noop: bool) -> String {
+#[allow(clippy::too_many_arguments)]
+pub fn export_eval(g: &Graph, step: usize, h_in: &History, disk_before: &BTreeMap<String, String>, leftover_before: &BTreeSet<String>, plan: &Plan, rep: &Report, exp: &Expect, noop: bool) -> String {
     let nodes: Vec<String> = g
         .nodes
         .iter()
@@ -1093,7 +1108,7 @@ pub fn export_eval(g: &Graph, step: usize, h_in: &History, disk_before: &BTreeMa
         ("nodes".to_string(), jarr(&nodes)),
         ("edges".to_string(), jarr(&edges)),
         ("h_in".to_string(), jmap(h_in)),
-        ("disk_before".to_string(), jarr(&disk_before.keys().map(|x| jstr(x)).collect::<Vec<_>>())),
+        ("disk_before".to_string(), jarr(&disk_before.keys().chain(leftover_before.iter()).map(|x| jstr(x)).collect::<Vec<_>>())),
         ("plan".to_string(), jstr(&plan.brief())),
         ("faulty".to_string(), (rep.interrupted() || !rep.errors.is_empty()).to_string()),
         // re-evaluation of an unchanged project: no edits, the previous evaluation completed, its history handed in
@@ -1143,6 +1158,8 @@ pub fn eval_step(p: &mut Project, cfg: &ChainCfg, seed: u64, step: usize, edits:
         plan.misuse = cfg.misuse.clone();
         plan.trace = cfg.export;
         let disk_before = p.world.borrow().disk.clone();
+        // (what the evaluation will see as left-behind temporary files: the old ones plus what is still in `temp`)
+        let leftover_before: BTreeSet<String> = p.world.borrow().leftover.iter().cloned().chain(p.world.borrow().temp.keys().cloned()).collect();
         if p.history.is_empty() {
             // history lost (or first evaluation): there is nothing an earlier success could vouch with
             p.shadow = Shadow::default();
@@ -1180,6 +1197,10 @@ pub fn eval_step(p: &mut Project, cfg: &ChainCfg, seed: u64, step: usize, edits:
         }
         for n in &p.g.nodes {
             if let Some(r) = p.shadow.rec.get(&n.id) {
+                // a dependency was dropped or added since the job last succeeded: per-dependency records may legitimately
+                // be gone (C18), so from now on the ground truth abstains about this job until it has succeeded again -
+                // except for the one thing it still knows for sure, see `expected_with`: while the names differ from
+                // what the job was built with, it is not up to date
                 if r.input_names != p.g.input_names(&n.id) {
                     p.shadow.dirty.insert(n.id.clone());
                 }
@@ -1194,8 +1215,10 @@ pub fn eval_step(p: &mut Project, cfg: &ChainCfg, seed: u64, step: usize, edits:
         let exp_truth = expected_with(&p.g, &p.history, &disk_before, mode, &p.tainted, Some(&p.shadow));
         if cfg.inject {
             // C16: change the payload of validated ephemerals that will be re-executed for a consumer
-            plan.fail.clear();
-            plan.abort_at = None;
+            if !cfg.inject_with_faults {
+                plan.fail.clear();
+                plan.abort_at = None;
+            }
             for n in &p.g.nodes {
                 if n.kind == JobKind::Ephemeral && exp.uptodate[&n.id] && exp.executed.contains(&n.id) && prng.chance(0.5) {
                     plan.inject.insert(n.id.clone());
@@ -1231,7 +1254,7 @@ pub fn eval_step(p: &mut Project, cfg: &ChainCfg, seed: u64, step: usize, edits:
         let case_hash = fnv(&format!("{}|{}|{:?}|{}", p.g.describe(), hist_str(&h_in), disk_before, plan.brief()));
         if cfg.export {
             let noop = step > 0 && edits.is_empty() && !st.prev_interrupted_or_edited && !h_in.is_empty();
-            st.export.push(export_eval(&p.g, step, &h_in, &disk_before, &plan, &rep, &exp, noop));
+            st.export.push(export_eval(&p.g, step, &h_in, &disk_before, &leftover_before, &plan, &rep, &exp, noop));
         }
         let started = rep.started_set();
         let mut all_viols: Vec<(Violation, &'static str)> = rep.violations.iter().cloned().map(|v| (v, "")).collect();
@@ -1328,6 +1351,16 @@ pub fn eval_step(p: &mut Project, cfg: &ChainCfg, seed: u64, step: usize, edits:
                     acc.evaluations += 1;
                     for v in &r2.violations {
                         all_viols.push((v.clone(), "resume"));
+                    }
+                    if !(r2.errors.is_empty() && r2.history_out.is_some()) {
+                        // the failure-free resume did not complete: whatever failed before and was not started again has
+                        // not been "executed again as soon as its upstreams succeed" (C08) - provided the failure-free
+                        // evaluation from the same start (the twin above) shows that the job can be reached at all
+                        for j in rep.failed.iter().chain(rep.running_at_abort.iter()) {
+                            if !r2.started.contains(j) && ustarted.contains(j) && !p.g.useless_ephemeral(j) {
+                                all_viols.push((mk("C08", "failed-job-not-executed-again", format!("{}:resume-did-not-complete", kind_char(p.g.kind(j))), format!("{} failed / was running at the abort; the failure-free resume did not complete (errors {:?}) and never executed it", j, r2.errors.iter().map(|e| e.chars().take(120).collect::<String>()).collect::<Vec<_>>())), ""));
+                            }
+                        }
                     }
                     if r2.errors.is_empty() && r2.history_out.is_some() {
                         for j in &r2.started {
